@@ -240,6 +240,13 @@ void error_handler (const char *err) {
   reset_destruct_object_limits();
   reset_load_object_limits();
 
+  /* The instruction that was going to consume the count of f(arr...) will not run. The
+   * compiler emits F_EXPAND_VARARGS directly in front of that instruction (after all the
+   * arguments have been evaluated), so a count that is pending when an error is raised
+   * belongs to the failed call only: drop it before any other LPC code runs (master::
+   * error_handler() below, the code after a catch(), the next evaluation). */
+  num_varargs = 0;
+
   if (current_error_context &&
       ((current_error_context->save_csp + 1)->framekind & FRAME_MASK) == FRAME_CATCH &&
       !in_fatal_error())
